@@ -27,7 +27,10 @@
 //                F-GRID-1 and the log/exp round trip displace bin edges by < 100 ulp(E)); its
 //                effect on the value is bounded by C_POS * ulp(x_k) * (bound on |slope|)
 //   C_EXT = 64   relative bracket around an oracle-decided extrapolation reference
-//   C_CMP = 16   inverse(range(E)): 16 eps E + 16 ulp(r) * (local dE/dr)
+//   C_LOSS = 32  mean energy loss, monotone in the step up to l + 32 eps E (E - E' cancellation)
+//   C_CMP = 16   inverse(range(E)): 16 eps E + 16 ulp(r) * (local dE/dr); if E is within C_POS ulp of
+//                a knot: + (that knot's range bracket) * dE/dr; if range(E) is within C_POS ulp of a
+//                tabulated range: + C_POS ulp(r_k) * dE/dr; below the table: + C_EXT eps E
 #include <cmath>
 #include <cstdlib>
 #include <functional>
@@ -77,6 +80,21 @@ constexpr double C_POS = 128;
 constexpr double C_EXT = 64;
 constexpr double C_CMP = 16;
 double const INF = std::numeric_limits<double>::infinity();
+//! VGRID_RAW=1: add the raw doubles (%.17g) to every record for diagnosis (ignored by the spec)
+bool const g_raw = std::getenv("VGRID_RAW") != nullptr;
+std::string raw(double v)
+{
+    char buf[64];
+    std::snprintf(buf, sizeof(buf), "%.17g", v);
+    return buf;
+}
+json raws(std::vector<double> const& v)
+{
+    json a = json::array();
+    for (double d : v)
+        a.push_back(raw(d));
+    return a;
+}
 
 inline double fup(double x)
 {
@@ -140,6 +158,8 @@ struct Extrap
     // oracle-decided reference for a query outside the grid (NaN: none)
     std::function<double(double)> below;
     std::function<double(double)> above;
+    // diagnostic: does the real UniformGrid::find send this query to bin size-1 ?
+    std::function<bool(double)> past_end;
 };
 
 //---------------------------------------------------------------------------//
@@ -200,9 +220,11 @@ std::vector<Query> make_queries(Table const& t, Rng& rng, bool with_above, bool 
         q.push_back({"in", k, a + 0.5 * (b - a)});
         q.push_back({"in", k, a + rng.uni(0.01, 0.99) * (b - a)});
         q.push_back({"in", k, steps(a, 2 + rng.below(3))});
-        q.push_back({"in", k, steps(a, 20 + rng.below(60))});
+        q.push_back({"in", k, steps(a, 20 + rng.below(100))});
+        q.push_back({"in", k, steps(a, 129 + rng.below(400))});
         q.push_back({"in", k, steps(b, -2 - rng.below(3))});
-        q.push_back({"in", k, steps(b, -20 - rng.below(60))});
+        q.push_back({"in", k, steps(b, -20 - rng.below(100))});
+        q.push_back({"in", k, steps(b, -129 - rng.below(400))});
         q.push_back({"dn", k + 1, fdn(b)});
     }
     q.push_back({"atlast", n - 1, x[n - 1]});
@@ -231,6 +253,7 @@ struct CompQuery
 {
     double x, r, v, lo, hi;
     bool fin;
+    bool pe;  // range(E) was computed with a read past the end of the table (F-GRID-1a)
 };
 
 json jseq(std::vector<double> const& v, verif::Ranker const& rank)
@@ -252,9 +275,11 @@ void emit_table(verif::NdjsonWriter& w,
     int n = int(t.x.size());
     std::vector<double> ytol, stol;
     knot_tolerances(t, ytol, stol);
-    std::vector<double> ylo(n), yhi(n), slo(n), shi(n), sv(n);
+    std::vector<double> ylo(n), yhi(n), slo(n), shi(n), sv(n), xnl(n), xnh(n);
     for (int k = 0; k < n; ++k)
     {
+        xnl[k] = t.x[k] - C_POS * ulp(t.x[k]);
+        xnh[k] = t.x[k] + C_POS * ulp(t.x[k]);
         ylo[k] = t.y[k] - ytol[k];
         yhi[k] = t.y[k] + ytol[k];
         sv[k] = (t.p >= 0 && k >= t.p) ? t.s[k] : 0.0;
@@ -270,7 +295,7 @@ void emit_table(verif::NdjsonWriter& w,
     verif::Ranker rank;
     rank.add(0.0);
     for (std::vector<double> const* vec :
-         std::initializer_list<std::vector<double> const*>{&t.x, &t.y, &ylo, &yhi, &sv, &slo, &shi})
+         std::initializer_list<std::vector<double> const*>{&t.x, &t.y, &ylo, &yhi, &sv, &slo, &shi, &xnl, &xnh})
         for (double d : *vec)
             rank.add(d);
     for (auto const& q : qs)
@@ -326,6 +351,8 @@ void emit_table(verif::NdjsonWriter& w,
     rec["sk"] = jseq(sv, rank);
     rec["slo"] = jseq(slo, rank);
     rec["shi"] = jseq(shi, rank);
+    rec["xnl"] = jseq(xnl, rank);
+    rec["xnh"] = jseq(xnh, rank);
     json jq = json::array();
     for (std::size_t i = 0; i < qs.size(); ++i)
     {
@@ -337,6 +364,7 @@ void emit_table(verif::NdjsonWriter& w,
                       {"xu", rank(fup(q.x))},
                       {"xd", rank(fdn(q.x))},
                       {"fin", r.fin},
+                      {"pe", ext.past_end ? ext.past_end(q.x) : false},
                       {"v", r.fin ? rank(r.v) : -1},
                       {"ve", rank(r.ve)},
                       {"ref", r.hasref},
@@ -348,11 +376,28 @@ void emit_table(verif::NdjsonWriter& w,
     for (auto const& c : comp)
         jc.push_back({{"x", rank(c.x)},
                       {"fin", c.fin},
+                      {"pe", c.pe},
                       {"r", c.fin ? rank(c.r) : -1},
                       {"v", c.fin ? rank(c.v) : -1},
                       {"lo", rank(c.lo)},
                       {"hi", rank(c.hi)}});
     rec["comp"] = jc;
+    if (g_raw)
+    {
+        std::vector<double> qx, qv;
+        for (std::size_t i = 0; i < qs.size(); ++i)
+        {
+            qx.push_back(qs[i].x);
+            qv.push_back(res[i].v);
+        }
+        rec["raw"] = {{"x", raws(t.x)}, {"y", raws(t.y)}, {"s", raws(t.s)}, {"ylo", raws(ylo)},
+                      {"yhi", raws(yhi)}, {"qx", raws(qx)}, {"qv", raws(qv)}};
+        json cr = json::array();
+        for (auto const& c : comp)
+            cr.push_back({raw(c.x), raw(c.r), raw(c.v), raw(c.lo), raw(c.hi)});
+        rec["raw"]["comp"] = cr;
+        rec["raw"]["ux"] = raws(t.ux);
+    }
     w(rec);
 }
 
@@ -370,13 +415,29 @@ struct XsStore
         data.log_energy = UniformGridData::from_bounds(loge_min, loge_max, size_type(values.size()));
         data.prime_index = p < 0 ? XsGridData::no_scaling() : size_type(p);
         data.value = make_builder(&reals).insert_back(values.begin(), values.end());
+        pad();
+    }
+    //! In the real physics storage another table follows.  One ulp below the last knot
+    //! UniformGrid::find can return size-1 (F-GRID-1) and the calculators then read
+    //! value[size]: keep that read inside the allocation and deterministic.
+    void pad()
+    {
+        double last = reals[ItemId<real_type>(reals.size() - 1)];
+        make_builder(&reals).push_back(1.5 * last + 1);
         ref = reals;
+    }
+    //! would the calculators read one element past this table for this energy?
+    bool reads_past_end(double e) const
+    {
+        UniformGrid g(data.log_energy);
+        double l = std::log(e);
+        return l > g.front() && l < g.back() && g.find(l) + 1 >= g.size();
     }
     void built(ValueGridBuilder const& b)
     {
         auto id = b.build(ValueGridInserter(&reals, &grids));
         data = grids[id];
-        ref = reals;
+        pad();
     }
     //! knot energies exactly as the calculators compute them
     std::vector<double> knots() const
@@ -486,6 +547,7 @@ void run_xs(verif::NdjsonWriter& w, Rng& rng, XsStore& st, Table& t)
         ext.below = [&t](double e) { return t.s[0] / e; };
     if (t.p >= 0)
         ext.above = [&t, n](double e) { return t.s[n - 1] / e; };
+    ext.past_end = [&st](double e) { return st.reads_past_end(e); };
     emit_table(
         w, t, qs, [&](double e) { return calc(XsCalculator::Energy{e}); }, ext);
 }
@@ -542,14 +604,18 @@ void run_range(verif::NdjsonWriter& w, Rng& rng, XsStore& st, std::string const&
     auto qs = make_queries(t, rng, true, false);
     Extrap ext;
     ext.below = [&t](double e) { return t.y[0] * std::sqrt(e / t.x[0]); };
+    ext.past_end = [&st](double e) { return st.reads_past_end(e); };
     // inverse(range(E)) for every query energy not above the table
     std::vector<CompQuery> comp;
+    std::vector<double> rtol, rstol;
+    knot_tolerances(t, rtol, rstol);
     for (auto const& q : qs)
     {
         if (!(q.x <= t.x[n - 1]))
             continue;
         CompQuery c{};
         c.x = q.x;
+        c.pe = st.reads_past_end(q.x);
         c.r = calc(RangeCalculator::Energy{q.x});
         c.fin = std::isfinite(c.r) && c.r >= 0 && c.r <= t.y[n - 1];
         if (c.fin)
@@ -569,6 +635,18 @@ void run_range(verif::NdjsonWriter& w, Rng& rng, XsStore& st, std::string const&
         double tol = C_CMP * EPS * q.x + C_CMP * ulp(c.fin ? c.r : 0.0) * slope;
         if (q.x < t.x[0])
             tol += C_EXT * EPS * q.x;
+        // near a knot: the range may sit anywhere in that knot's bracket, and the inverse may
+        // use either neighbouring line; both are amplified by the local dE/dr
+        for (int k = 0; k < n; ++k)
+        {
+            double sk = 0;
+            for (int j = std::max(k - 1, 0); j <= std::min(k, n - 2); ++j)
+                sk = std::max(sk, (t.x[j + 1] - t.x[j]) / (t.y[j + 1] - t.y[j]));
+            if (std::fabs(q.x - t.x[k]) <= C_POS * ulp(t.x[k]))
+                tol += rtol[k] * sk;
+            if (c.fin && std::fabs(c.r - t.y[k]) <= C_POS * ulp(t.y[k]))
+                tol += C_POS * ulp(t.y[k]) * sk;
+        }
         c.lo = q.x - tol;
         c.hi = q.x + tol;
         comp.push_back(c);
@@ -797,10 +875,528 @@ void mode_tables(unsigned long seed, int reps, int nlo, int nhi, std::string con
 }  // namespace
 
 //---------------------------------------------------------------------------//
-//PHYS-BEGIN
-void mode_loss(unsigned long, int, std::string const&) {}
-void mode_msc(unsigned long, int, std::string const&) {}
-//PHYS-END
+//---------------------------------------------------------------------------//
+// Hand-built e-/e+ ionisation physics with seeded stopping-power profiles (recipe of
+// vproblem.hh reduced to what calc_mean_energy_loss / UrbanMscHelper read: particles,
+// materials, PhysicsParams with one energy-loss process).  The range table is the
+// trapezoid integral of 1/dedx on the table's own knots, i.e. self-consistent in the sense
+// PhysicsStepUtils.hh assumes ("range is always the integral of the stopping power").
+namespace
+{
+struct MiniPhysics
+{
+    std::shared_ptr<MaterialParams> mats;
+    std::shared_ptr<ParticleParams> particles;
+    std::shared_ptr<ActionRegistry> reg;
+    std::shared_ptr<PhysicsParams> physics;
+    std::vector<double> egrid;
+    std::string kind;
+    double linear_loss_limit;
+};
+
+std::vector<double> dedx_profile(Rng& rng, std::string const& kind, std::vector<double> const& e)
+{
+    int n = int(e.size());
+    std::vector<double> d(n);
+    double c = std::exp(rng.uni(-1, 2));
+    if (kind == "const")
+        for (auto& v : d)
+            v = c;
+    else if (kind == "rise")
+    {
+        double a = rng.uni(0.05, 0.8);
+        for (int i = 0; i < n; ++i)
+            d[i] = c * std::pow(e[i], a);
+    }
+    else if (kind == "fall")
+    {
+        double a = rng.uni(0.05, 0.9);
+        for (int i = 0; i < n; ++i)
+            d[i] = c * std::pow(e[i], -a);
+    }
+    else if (kind == "bragg")
+    {
+        for (int i = 0; i < n; ++i)
+            d[i] = c * (std::pow(e[i], -0.8) + 0.3 * std::pow(e[i], 0.15));
+    }
+    else if (kind == "rand")
+    {
+        double lg = std::log(c);
+        for (int i = 0; i < n; ++i)
+        {
+            d[i] = std::exp(lg);
+            lg += rng.uni(-0.25, 0.25);
+        }
+    }
+    else
+        std::abort();
+    return d;
+}
+
+MiniPhysics build_mini(Rng& rng, std::string const& kind, double linear_loss_limit, int ngrid)
+{
+    using namespace units;
+    using namespace verif;
+    MiniPhysics m;
+    m.kind = kind;
+    m.linear_loss_limit = linear_loss_limit;
+    double const me = 0.5109989461;
+    MaterialParams::Input minp;
+    minp.elements = {{AtomicNumber{13}, AmuMass{26.98}, {}, "Al"}};
+    minp.materials
+        = {{native_value_from(MolCcDensity{0.1}), 293.0, MatterState::solid, {{ElementId{0}, 1.0}}, "Al"},
+           {native_value_from(MolCcDensity{1e-3}), 293.0, MatterState::gas, {{ElementId{0}, 1.0}}, "thin"}};
+    m.mats = std::make_shared<MaterialParams>(std::move(minp));
+    ParticleParams::Input defs;
+    defs.push_back({"electron", pdg::electron(), MevMass{me}, ElementaryCharge{-1}, constants::stable_decay_constant});
+    defs.push_back({"positron", pdg::positron(), MevMass{me}, ElementaryCharge{1}, constants::stable_decay_constant});
+    m.particles = std::make_shared<ParticleParams>(std::move(defs));
+    m.reg = std::make_shared<ActionRegistry>();
+    m.egrid = loggrid(1e-4, 1e8, ngrid);
+    std::vector<ImportProcess> procs;
+    for (auto pdgn : {pdg::electron(), pdg::positron()})
+    {
+        ImportProcess pr;
+        pr.particle_pdg = pdgn.get();
+        pr.secondary_pdg = pdg::electron().get();
+        pr.process_type = ImportProcessType::electromagnetic;
+        pr.process_class = ImportProcessClass::e_ioni;
+        ImportModel mod;
+        mod.model_class = ImportModelClass::moller_bhabha;
+        mod.materials.resize(2);
+        for (auto& imm : mod.materials)
+            imm.energy = {1e-4, 1e8};
+        pr.models.push_back(mod);
+        ImportPhysicsTable de;
+        de.table_type = ImportTableType::dedx;
+        de.x_units = ImportUnits::mev;
+        de.y_units = ImportUnits::mev_per_len;
+        ImportPhysicsTable ra;
+        ra.table_type = ImportTableType::range;
+        ra.x_units = ImportUnits::mev;
+        ra.y_units = ImportUnits::len;
+        ImportPhysicsTable l;
+        l.table_type = ImportTableType::lambda;
+        l.x_units = ImportUnits::mev;
+        l.y_units = ImportUnits::len_inv;
+        for (int mi = 0; mi < 2; ++mi)
+        {
+            auto const& eg = m.egrid;
+            auto d = dedx_profile(rng, kind, eg);
+            if (mi == 1)
+                for (auto& v : d)
+                    v *= 1e-2;
+            std::vector<double> r(eg.size()), lam(eg.size());
+            r[0] = eg[0] / d[0];
+            for (std::size_t i = 1; i < eg.size(); ++i)
+                r[i] = r[i - 1] + 0.5 * (1 / d[i - 1] + 1 / d[i]) * (eg[i] - eg[i - 1]);
+            if (kind == "const")
+                for (std::size_t i = 0; i < eg.size(); ++i)
+                    r[i] = eg[i] / d[i];
+            for (std::size_t i = 0; i < eg.size(); ++i)
+                lam[i] = (eg[i] > 0.25 ? 0.3 : 0.0);
+            de.physics_vectors.push_back(logvec(eg, d));
+            ra.physics_vectors.push_back(logvec(eg, r));
+            l.physics_vectors.push_back(logvec(eg, lam));
+        }
+        pr.tables = {l, de, ra};
+        procs.push_back(pr);
+    }
+    {
+        celeritas::detail::ImportDataConverter convert{UnitSystem::cgs};
+        for (auto& pr : procs)
+            convert(&pr);
+    }
+    auto pdata = std::make_shared<ImportedProcesses>(std::move(procs));
+    PhysicsParams::Input pin;
+    pin.particles = m.particles;
+    pin.materials = m.mats;
+    pin.processes = {std::make_shared<EIonizationProcess>(m.particles, pdata, EIonizationProcess::Options{})};
+    pin.action_registry = m.reg.get();
+    pin.options.linear_loss_limit = linear_loss_limit;
+    m.physics = std::make_shared<PhysicsParams>(std::move(pin));
+    return m;
+}
+
+// One track slot worth of state over given params
+struct Slot
+{
+    CollectionStateStore<MaterialStateData, MemSpace::host> mat;
+    CollectionStateStore<ParticleStateData, MemSpace::host> par;
+    CollectionStateStore<PhysicsStateData, MemSpace::host> phys;
+    std::shared_ptr<MaterialParams const> mats;
+    std::shared_ptr<ParticleParams const> particles;
+    std::shared_ptr<PhysicsParams const> physics;
+
+    Slot(std::shared_ptr<MaterialParams const> m, std::shared_ptr<ParticleParams const> p,
+         std::shared_ptr<PhysicsParams const> ph)
+        : mat(m->host_ref(), 1), par(p->host_ref(), 1), phys(ph->host_ref(), 1), mats(m), particles(p), physics(ph)
+    {
+    }
+    MaterialTrackView material() { return {mats->host_ref(), mat.ref(), TrackSlotId{0}}; }
+    ParticleTrackView particle() { return {particles->host_ref(), par.ref(), TrackSlotId{0}}; }
+    //! initialise the slot and run the real pre-step limiter (stores dedx_range)
+    PhysicsTrackView init(MaterialId mid, ParticleId pid, double energy)
+    {
+        auto mv = this->material();
+        mv = MaterialTrackView::Initializer_t{mid};
+        auto pv = this->particle();
+        ParticleTrackView::Initializer_t pi;
+        pi.particle_id = pid;
+        pi.energy = units::MevEnergy{energy};
+        pv = pi;
+        PhysicsTrackView ph(physics->host_ref(), phys.ref(), pid, mid, TrackSlotId{0});
+        ph = PhysicsTrackInitializer{};
+        ph.interaction_mfp(1.0);
+        PhysicsStepView ps(physics->host_ref(), phys.ref(), TrackSlotId{0});
+        calc_physics_step_limit(mv, pv, ph, ps);
+        return ph;
+    }
+};
+
+// pre-step energies: the classes of the physics energy grid
+std::vector<double> pick_energies(Rng& rng, std::vector<double> const& eg, int count)
+{
+    std::vector<double> es;
+    int n = int(eg.size());
+    for (int i = 0; i < count; ++i)
+    {
+        int k = rng.below(n - 1);
+        switch (i % 8)
+        {
+            case 0: es.push_back(eg[k]); break;
+            case 1: es.push_back(fup(eg[k])); break;
+            case 2: es.push_back(fdn(eg[k + 1])); break;
+            case 3: es.push_back(eg[0] * rng.uni(0.01, 1)); break;  // below the table
+            case 4: es.push_back(eg[n - 1]); break;
+            case 5: es.push_back(eg[k] + 0.5 * (eg[k + 1] - eg[k])); break;
+            default: es.push_back(eg[k] + rng.uni(0, 1) * (eg[k + 1] - eg[k])); break;
+        }
+    }
+    return es;
+}
+
+struct Sample
+{
+    double s, l;
+    bool fin;
+    bool lin;  // regime: step * dE/dx < linear_loss_limit * E (documented hand-over condition)
+};
+constexpr double C_LOSS = 32;  // tolerance table: monotonicity bracket l + C_LOSS * eps * E
+
+void emit_loss(verif::NdjsonWriter& w, std::string const& real, double energy, double range,
+               double limit, std::vector<Sample> const& st)
+{
+    verif::Ranker rank;
+    rank.add(0.0);
+    rank.add(energy);
+    rank.add(range);
+    for (auto const& x : st)
+    {
+        rank.add(x.s);
+        if (x.fin)
+        {
+            rank.add(x.l);
+            rank.add(x.l + C_LOSS * EPS * energy);
+        }
+    }
+    rank.finalize();
+    json js = json::array();
+    for (auto const& x : st)
+        js.push_back({{"s", rank(x.s)},
+                      {"l", x.fin ? rank(x.l) : -1},
+                      {"lhi", x.fin ? rank(x.l + C_LOSS * EPS * energy) : -1},
+                      {"lin", x.lin},
+                      {"fin", x.fin}});
+    json rec{{"e", "Loss"},
+             {"real", real},
+             {"lim", limit},
+             {"zero", rank(0.0)},
+             {"E", rank(energy)},
+             {"range", rank(range)},
+             {"steps", js}};
+    if (g_raw)
+    {
+        std::vector<double> a, b;
+        for (auto const& x : st)
+        {
+            a.push_back(x.s);
+            b.push_back(x.l);
+        }
+        rec["raw"] = {{"E", raw(energy)}, {"range", raw(range)}, {"s", raws(a)}, {"l", raws(b)}};
+    }
+    w(rec);
+}
+
+// Step sweep in (0, range] through the real calc_mean_energy_loss
+void loss_sweep(verif::NdjsonWriter& w, Rng& rng, Slot& slot, std::string const& real, double limit,
+                MaterialId mid, ParticleId pid, double energy)
+{
+    auto phys = slot.init(mid, pid, energy);
+    auto particle = slot.particle();
+    double range = phys.dedx_range();
+    if (!(range > 0) || !std::isfinite(range))
+        return;
+    // where the linear approximation hands over to the range table (an input class, from
+    // the real energy-loss calculator -- not an expectation)
+    double rate = phys.make_calculator<EnergyLossCalculator>(
+        phys.value_grid(ValueGridType::energy_loss, phys.eloss_ppid()))(particle.energy());
+    double s0 = rate > 0 ? limit * energy / rate : range;
+    std::vector<double> ss = {range,
+                              fdn(range),
+                              steps(range, -3),
+                              range * (1 - 1e-9),
+                              range * 0.999,
+                              range * 1e-12,
+                              range * 1e-6,
+                              range * 1e-3};
+    for (double f : {1 - 1e-3, 1 - 1e-9, 1.0, 1 + 1e-9, 1 + 1e-3})
+        ss.push_back(s0 * f);
+    ss.push_back(fdn(s0));
+    ss.push_back(fup(s0));
+    for (int i = 0; i < 12; ++i)
+        ss.push_back(range * rng.u01());
+    for (int i = 0; i < 6; ++i)
+        ss.push_back(range * std::pow(10.0, rng.uni(-9, 0)));
+    std::vector<Sample> st;
+    for (double s : ss)
+    {
+        if (!(s > 0 && s <= range))
+            continue;
+        double l = calc_mean_energy_loss(particle, phys, s).value();
+        st.push_back({s, l, std::isfinite(l), !(s * rate >= energy * limit)});
+    }
+    emit_loss(w, real, energy, range, limit, st);
+}
+}  // namespace
+
+void mode_loss(unsigned long seed, int count, std::string const& out)
+{
+    verif::NdjsonWriter w(out);
+    Rng rng(seed);
+    // (a) the shared hand-built e-/e+/gamma problem of vproblem.hh (constant dE/dx)
+    {
+        verif::Problem p;
+        verif::ProblemOptions o;
+        o.dedx = std::exp(rng.uni(-1, 2));
+        verif::build_problem(p, o);
+        Slot slot(p.mats, p.particles, p.physics);
+        auto eg = verif::loggrid(1e-4, 1e8, 85);
+        for (auto name : {"electron", "positron"})
+        {
+            ParticleId pid = p.particles->find(name);
+            for (int mi = 0; mi < 2; ++mi)
+                for (double e : pick_energies(rng, eg, count))
+                    loss_sweep(w, rng, slot, "vproblem", 0.01, MaterialId(mi), pid, e);
+        }
+    }
+    // (b) seeded stopping-power profiles x loss-limit parameters
+    int variant = 0;
+    for (std::string kind : {"const", "rise", "fall", "bragg", "rand"})
+        for (double limit : {0.01, 0.0, 0.05, 0.3, 1.0})
+        {
+            int ngrid = (variant++ % 3 == 0) ? 13 : 85;
+            MiniPhysics m = build_mini(rng, kind, limit, ngrid);
+            Slot slot(m.mats, m.particles, m.physics);
+            for (auto name : {"electron", "positron"})
+            {
+                ParticleId pid = m.particles->find(name);
+                for (int mi = 0; mi < 2; ++mi)
+                    for (double e : pick_energies(rng, m.egrid, count))
+                        loss_sweep(w, rng, slot, kind, limit, MaterialId(mi), pid, e);
+            }
+        }
+    w({{"e", "Close"}, {"n", w.count()}});
+}
+
+//---------------------------------------------------------------------------//
+namespace
+{
+void emit_msc(verif::NdjsonWriter& w, std::string const& real, double t, double g, double b,
+              std::vector<std::pair<double, double>> const& partial, json const& info)
+{
+    verif::Ranker rank;
+    rank.add(0.0);
+    bool fin = std::isfinite(g) && std::isfinite(b);
+    rank.add(t);
+    if (fin)
+    {
+        rank.add(g);
+        rank.add(b);
+    }
+    for (auto const& pr : partial)
+    {
+        rank.add(pr.first);
+        if (std::isfinite(pr.second))
+            rank.add(pr.second);
+    }
+    rank.finalize();
+    json gs = json::array();
+    for (auto const& pr : partial)
+    {
+        bool f = std::isfinite(pr.second);
+        gs.push_back({{"g", rank(pr.first)}, {"b", f ? rank(pr.second) : -1}, {"fin", f}});
+    }
+    json rec{{"e", "Msc"},
+             {"real", real},
+             {"zero", rank(0.0)},
+             {"fin", fin},
+             {"t", rank(t)},
+             {"g", fin ? rank(g) : -1},
+             {"b", fin ? rank(b) : -1},
+             {"gs", gs}};
+    if (g_raw)
+    {
+        std::vector<double> a, c;
+        for (auto const& pr : partial)
+        {
+            a.push_back(pr.first);
+            c.push_back(pr.second);
+        }
+        rec["raw"] = {{"t", raw(t)}, {"g", raw(g)}, {"b", raw(b)}, {"pg", raws(a)}, {"pb", raws(c)}, {"in", info}};
+    }
+    w(rec);
+}
+
+// ToGeo(t), FromGeo(ToGeo(t)) and FromGeo(g') for shorter geometry-limited g'
+void msc_case(verif::NdjsonWriter& w, Rng& rng, std::string const& real,
+              NativeCRef<UrbanMscData> const& shared, celeritas::detail::UrbanMscHelper const& helper,
+              double energy, double lambda, double range, double t)
+{
+    using namespace celeritas::detail;
+    MscStepToGeo to_geo(shared, helper, units::MevEnergy{energy}, lambda, range);
+    auto gp = to_geo(t);
+    MscStep step;
+    step.true_path = t;
+    step.geom_path = gp.step;
+    step.alpha = gp.alpha;
+    double b = std::numeric_limits<double>::quiet_NaN();
+    std::vector<std::pair<double, double>> partial;
+    if (std::isfinite(gp.step) && gp.step >= 0 && gp.step <= t)
+    {
+        MscStepFromGeo from_geo(shared.params, step, range, lambda);
+        b = from_geo(gp.step);
+        double g = gp.step;
+        double const ms = UrbanMscParameters::min_step();
+        for (double gg : {fdn(g), g * 0.9, g * 0.5, g * 0.1, g * rng.u01(), g * 1e-6, fdn(ms), ms, fup(ms)})
+            if (gg >= 0 && gg <= g)
+                partial.push_back({gg, from_geo(gg)});
+    }
+    emit_msc(w, real, t, gp.step, b, partial,
+             {{"E", raw(energy)}, {"lambda", raw(lambda)}, {"range", raw(range)}, {"alpha", raw(gp.alpha)}});
+}
+
+std::vector<double> true_paths(Rng& rng, double range)
+{
+    double const ms = UrbanMscParameters::min_step();
+    double const dtrl = UrbanMscParameters::dtrl();
+    std::vector<double> ts = {range,
+                              fdn(range),
+                              range * (1 - 1e-9),
+                              range * 0.5,
+                              range * dtrl,
+                              fdn(range * dtrl),
+                              fup(range * dtrl),
+                              range * dtrl * 0.5,
+                              range * 1e-3,
+                              ms,
+                              fdn(ms),
+                              fup(ms),
+                              ms * 0.5,
+                              ms * 3};
+    for (int i = 0; i < 6; ++i)
+        ts.push_back(range * rng.u01());
+    for (int i = 0; i < 4; ++i)
+        ts.push_back(range * std::pow(10.0, rng.uni(-8, 0)));
+    std::vector<double> r;
+    for (double t : ts)
+        if (t > 0 && t <= range)
+            r.push_back(t);
+    return r;
+}
+}  // namespace
+
+void mode_msc(unsigned long seed, int count, std::string const& out)
+{
+    using namespace celeritas::detail;
+    verif::NdjsonWriter w(out);
+    Rng rng(seed);
+    int variant = 0;
+    for (std::string kind : {"const", "fall", "bragg", "rand"})
+        for (std::string mkind : {"power", "kink"})
+        {
+            MiniPhysics m = build_mini(rng, kind, 0.01, (variant++ % 2) ? 85 : 25);
+            Slot slot(m.mats, m.particles, m.physics);
+            // hand-built Urban data: scaled cross sections xs * E^2 on a log grid
+            HostVal<UrbanMscData> host;
+            host.ids.electron = m.particles->find(pdg::electron());
+            host.ids.positron = m.particles->find(pdg::positron());
+            host.electron_mass = m.particles->get(host.ids.electron).mass();
+            host.params.low_energy_limit = units::MevEnergy{1e-4};
+            host.params.high_energy_limit = units::MevEnergy{1e8};
+            {
+                auto md = make_builder(&host.material_data);
+                auto pm = make_builder(&host.par_mat_data);
+                ValueGridInserter ins(&host.reals, &host.xs);
+                int const nx = 40;
+                auto eg = verif::loggrid(1e-4, 1e8, nx);
+                for (int mi = 0; mi < 2; ++mi)
+                {
+                    md.push_back(UrbanMscMaterialData{});
+                    for (int pi = 0; pi < 2; ++pi)
+                    {
+                        UrbanMscParMatData d;
+                        d.scaled_zeff = 1;
+                        d.d_over_r = 1;
+                        pm.push_back(d);
+                        // mean free path lambda(E) = lam0 * E^b ; stored: E^2 / lambda
+                        double lam0 = std::exp(rng.uni(-6, 3)), b = rng.uni(0.6, 1.8);
+                        std::vector<double> sx(nx);
+                        for (int i = 0; i < nx; ++i)
+                        {
+                            double lam = lam0 * std::pow(eg[i], b);
+                            if (mkind == "kink" && eg[i] > 10)
+                                lam *= 0.8;  // cross section jumps UP above 10 MeV (documented for e+)
+                            sx[i] = eg[i] * eg[i] / lam;
+                        }
+                        ValueGridLogBuilder(eg.front(), eg.back(), sx).build(ins);
+                    }
+                }
+            }
+            HostCRef<UrbanMscData> shared;
+            shared = host;
+            for (auto name : {"electron", "positron"})
+            {
+                ParticleId pid = m.particles->find(name);
+                for (int mi = 0; mi < 2; ++mi)
+                    for (int i = 0; i < count; ++i)
+                    {
+                        double energy = std::pow(10.0, rng.uni(-3.5, 3));
+                        if (i % 4 == 0)
+                            energy = 10 * (1 + rng.uni(-0.05, 0.3));  // around the kink
+                        auto phys = slot.init(MaterialId(mi), pid, energy);
+                        auto particle = slot.particle();
+                        UrbanMscHelper helper(shared, particle, phys);
+                        double range = phys.dedx_range();
+                        double lambda = helper.msc_mfp();
+                        if (!(range > 0 && lambda > 0 && std::isfinite(range) && std::isfinite(lambda)))
+                            continue;
+                        for (double t : true_paths(rng, range))
+                            msc_case(w, rng, kind + "/" + mkind, shared, helper, energy, lambda, range, t);
+                        // free parameters (branches that do not consult the tables: low
+                        // energy or range-limited step): any mean free path and range
+                        if (energy < 0.5109989461)
+                        {
+                            double lam2 = std::pow(10.0, rng.uni(-6, 4));
+                            double ran2 = std::pow(10.0, rng.uni(-6, 4));
+                            for (double t : true_paths(rng, ran2))
+                                msc_case(w, rng, "free", shared, helper, energy, lam2, ran2, t);
+                        }
+                    }
+            }
+        }
+    w({{"e", "Close"}, {"n", w.count()}});
+}
 
 int main(int argc, char** argv)
 {
